@@ -11,7 +11,7 @@ for x in "$@"; do
   if ! echo "$conf" | grep -q '^CONFIRMED'; then echo "  -> not kept"; continue; fi
   mkdir -p "$dst"; cp "$src/patch.diff" "$src/demo_test.rs" "$dst/"; [ -f "$src/notes.md" ] && cp "$src/notes.md" "$dst/"
   res=$("$here/tools/try_patch.sh" "$dst/patch.diff" "$id" 2>&1); echo "$res" | tail -3
-  if echo "$res" | grep -q "CAUGHT BY: nobody"; then
+  if echo "$res" | grep -q "CAUGHT BY: nobody" && [ "${EVAL_ALL:-1}" = 1 ]; then
      echo "  target check missed it; trying all checks"
      res2=$("$here/tools/try_patch.sh" "$dst/patch.diff" 2>&1); echo "$res2" | tail -4
      res="$res"$'\n'"--- all checks ---"$'\n'"$res2"
